@@ -63,7 +63,7 @@ func addrKey(a ssa.Value) string {
 	case *ssa.FieldAddr:
 		return addrKey(x.X) + "." + fieldName(x.X.Type(), x.Field)
 	case *ssa.Parameter:
-		return "p:" + x.Name()
+		return "p:" + ParamName(x)
 	case *ssa.UnOp:
 		if x.Op == token.MUL {
 			return "*" + addrKey(x.X)
